@@ -467,6 +467,62 @@ func c12Bind(c *cx) {
 	// element lacks them, so a reused target lets a reply without an id or
 	// type inherit the request's
 	freshDecodeTargets(c, "C12.5", f, 2)
+	// the initiator reports success only for a result reply: an error reply
+	// (with or without an <error/> child) or any other type never ends in Ready
+	nsucc := 0
+	for _, rs := range g.Returns {
+		if g.RetKindOf(rs) == eng.RetError {
+			continue
+		}
+		pt, _ := g.Where(rs)
+		if ok, _ := g.Dominated(pt, "all(*,xmpp.Received)"); ok {
+			continue // receiver side
+		}
+		nsucc++
+		c.dom("C12.5", f, rs, "initiator success return [result reply]", []string{"eq(*.Type,stanza.ResultIQ)"})
+	}
+	c.r.Floor("C12.5", "initiator success returns of bind", nsucc, 1)
+	// receiver: a stanza error from the application's callback is answered as
+	// an ERROR reply and the step does not report success
+	nrs := 0
+	for _, rs := range g.Returns {
+		if g.RetKindOf(rs) == eng.RetError {
+			continue
+		}
+		pt, _ := g.Where(rs)
+		if ok, _ := g.Dominated(pt, "all(*,xmpp.Received)"); !ok {
+			continue
+		}
+		nrs++
+		c.domAny("C12.6", f, rs, "receiver success return [callback returned no stanza error]", []string{"!commaok(*.(stanza.Error))"})
+	}
+	c.r.Floor("C12.6", "receiver success returns of bind", nrs, 1)
+	for _, w := range f.Writes() {
+		if sel, ok := ast.Unparen(w.LHS).(*ast.SelectorExpr); ok && sel.Sel.Name == "Err" {
+			if k, _ := f.FieldClass(sel); k != "xmpp.bindIQ.Err" {
+				continue
+			}
+			wp, _ := g.Where(w.Stmt)
+			setsErrType := func(q eng.Point, nd ast.Node) bool {
+				for _, w2 := range f.Writes() {
+					if w2.Stmt == nd && w2.RHS != nil && f.Norm(w2.RHS, nil) == "stanza.ErrorIQ" {
+						if s2, ok := ast.Unparen(w2.LHS).(*ast.SelectorExpr); ok && s2.Sel.Name == "Type" {
+							return true
+						}
+					}
+				}
+				return false
+			}
+			okT := false
+			for _, cl := range f.Calls("xmpp.bindIQ.WriteXML") {
+				cp, _ := g.Where(cl)
+				if g.Reachable(g.After(wp), cp, nil, nil) {
+					okT = g.MustPassBefore(g.After(wp), cp, setsErrType, nil) || g.MustPassBefore(g.Entry(), wp, setsErrType, nil)
+				}
+			}
+			c.r.Check("C12.6", f, "error reply has type error", "K: a reply that carries the callback's stanza error is sent with type='error'", w.Stmt.Pos(), okT, "the reply carries an <error/> but its type stays 'result'")
+		}
+	}
 	for _, cl := range f.Calls("xmpp.Session.UpdateAddr") {
 		pt, _ := g.Where(cl)
 		c.domAny("C12.5", f, cl, "UpdateAddr [our request id]", []string{"eq(*.ID,internal/attr.RandomID())", "eq(internal/attr.RandomID(),*.ID)"})
